@@ -256,7 +256,32 @@ fn write_history(cfg: &Cfg, rng: &mut Rng, case: &str) {
     let mut trace: Vec<String> = Vec::new();
     let mut used_idx: u64 = u16::from_le_bytes(r0.pread(r0.gpa + 2 * PAGE - 64 + 2, 2).try_into().unwrap_or([0, 0])) as u64;
     let mut table_changed = false;
+    let mut refused_logs: Vec<Log> = Vec::new();
+    let mut ring_ok = ring_ok;
     for step in 0..cfg.pick(40, 200) {
+        // occasionally a SET_LOG_BASE whose log covers the low regions only: it must be refused and
+        // leave the accepted log fully in force (nothing may be written into the refused one)
+        if step > 3 && cur.len() >= 2 && rng.chance(1, 14) {
+            let regs_now: Vec<&Reg> = cur.iter().map(|i| if *i >= 100 { &extra[*i - 100] } else { &lay.regs[*i] }).collect();
+            let need_now = highest_page(&regs_now) / 8 + 1;
+            let lowest_top = regs_now.iter().map(|r| (r.gpa + r.size - 1) / PAGE).min().unwrap_or(0);
+            let small = lowest_top / 8 + 1;
+            if small < need_now {
+                let refused = Log::new(small, rng.below(3));
+                let r = w.fe.as_mut().unwrap().set_log_base(0, Some(refused.region()));
+                report::count("set_log_base.refused_midway", 1);
+                if r.is_ok() {
+                    report::violation("C15:set_log_base:too-small-log-accepted", jo! {"log_size" => small, "bytes_needed_for_highest_page" => need_now, "history" => trace.iter().rev().take(8).rev().cloned().collect::<Vec<String>>()}, cfg.replay(case));
+                    return;
+                }
+                trace.push(format!("SET_LOG_BASE(size={small}: refused)"));
+                refused_logs.push(refused);
+                if !w.reconnect() {
+                    return;
+                }
+                ring_ok = false;
+            }
+        }
         // occasionally change the memory table (logging must stay in force)
         if step > 3 && rng.chance(1, 10) {
             let fe = w.fe.as_mut().unwrap();
@@ -309,12 +334,21 @@ fn write_history(cfg: &Cfg, rng: &mut Rng, case: &str) {
         }
         report::eval(1);
         report::count("writes", 1);
+        for rl in &refused_logs {
+            if let Some((i, got, want)) = rl.diff() {
+                report::violation("C15:log-content:write-into-refused-log",
+                    jo! {"history" => trace.iter().rev().take(12).rev().cloned().collect::<Vec<String>>(), "file_offset" => i, "got" => got, "expected" => want}, cfg.replay(case));
+                return;
+            }
+        }
         if let Some((i, got, want)) = log.diff() {
             let in_window = (i as u64) >= log.offset && (i as u64) < log.offset + log.size;
             let kind = if !in_window {
                 "outside-log-window"
             } else if got & !want != 0 {
                 "spurious-bit"
+            } else if !refused_logs.is_empty() {
+                "write-after-refused-set-log-base-not-logged"
             } else if table_changed {
                 "write-after-table-change-not-logged"
             } else {
